@@ -292,6 +292,7 @@ def step (s : St) : Ev → Option St
   | .query a rq poss =>
     if a < s.n ∧ rq = s.req ∧ poss = (s.req || decide (0 < s.srcs)) then some s else none
   | .done a =>
-    if a < s.n ∧ s.pc a = .idle then some { s with pc := upd s.pc a .fin } else none
+    -- a thread finishes at nesting level 0 only (never from inside a callback body)
+    if a < s.n ∧ a < s.K ∧ s.pc a = .idle then some { s with pc := upd s.pc a .fin } else none
 
 end PikaVerif.Stop
